@@ -286,6 +286,8 @@ func applyLayer(nd *Node, l Layer) (err error) {
 		} else {
 			nd.S = r
 		}
+	case "dup":
+		nd.S, nd.A = dupSwarm{nd.S}, nil
 	case "errclose":
 		// a transport whose Close reports an error (after really closing): layers above must still shut down
 		ec := &errClose{Swarm: nd.S}
@@ -528,6 +530,17 @@ type errClose struct{ Swarm }
 func (e *errClose) Close() error {
 	e.Swarm.Close()
 	return fmt.Errorf("transport reported an error while closing")
+}
+
+// dupSwarm is a datagram transport that delivers every datagram twice, as UDP may. Tell-only.
+type dupSwarm struct{ Swarm }
+
+func (d dupSwarm) Tell(ctx context.Context, dst Addr, v p2p.IOVec) error {
+	if err := d.Swarm.Tell(ctx, dst, v); err != nil {
+		return err
+	}
+	d.Swarm.Tell(ctx, dst, v) // the copy is best effort
+	return nil
 }
 
 type errCloseAsk struct {
